@@ -334,6 +334,32 @@ pub fn run(rep: &mut Report) {
                 }
             }
         }
+        // a key held down: every make sequence (1–3 bytes) repeated 70 000 times on one decoder and through a Keyboard
+        fn soak_sequences<D: Dec>(t: &mut Tally, name: &'static str) {
+            let r = ref_for(D::SET);
+            let ty = Typist::new(D::SET, &r);
+            for m in ty.make.iter().filter(|m| m.len() > 1) {
+                let res = guarded(|| {
+                    let mut d = D::fresh();
+                    let mut kb: Keyboard<DynLayout, D> = Keyboard::new(D::fresh(), dyn_layout(0, 0), HandleControl::MapLettersToUnicode);
+                    for _ in 0..SOAK {
+                        for b in m.iter() {
+                            let _ = d.advance_state(*b);
+                            if let Ok(Some(ev)) = kb.add_byte(*b) {
+                                let _ = kb.process_keyevent(ev);
+                            }
+                        }
+                    }
+                });
+                t.add(name, SOAK as u64 * m.len() as u64);
+                t.add("Keyboard::add_byte", SOAK as u64 * m.len() as u64);
+                if let Err(p) = res {
+                    t.panic(name, format!("make sequence [{}] repeated {} times", hex_bytes(m), SOAK), &p, J::obj().with("kind", J::s("soak")).with("set", J::u(D::SET as u64)).with("make_hex", J::s(hex_bytes(m))));
+                }
+            }
+        }
+        soak_sequences::<ScancodeSet1>(&mut t, "ScancodeSet1::advance_state");
+        soak_sequences::<ScancodeSet2>(&mut t, "ScancodeSet2::advance_state");
         soak_bytes::<ScancodeSet1>(&mut t, "ScancodeSet1::advance_state");
         soak_bytes::<ScancodeSet2>(&mut t, "ScancodeSet2::advance_state");
         let uni2 = uni.clone();
